@@ -549,6 +549,10 @@ class Blockwise(ArrayExpr):
                     # Broadcast or unaligned operand axis: the output indexer
                     # does not address the same positions of this operand.
                     return None
+                if not self.align_arrays and arr.chunks[input_axis] != self.chunks[axis]:
+                    # Unaligned operands are paired by block position; the take
+                    # regroups each operand along its own chunk boundaries.
+                    return None
                 shuffled = Shuffle(arr, shuffle_expr.indexer, input_axis, shuffle_expr.operand("name"))
                 new_args.extend([shuffled, ind])
             else:
@@ -661,6 +665,15 @@ class Blockwise(ArrayExpr):
                         if out_pos in sliced_axes and arg.shape[pos] != self.shape[out_pos]:
                             # Broadcast operand axis: the output slice does not
                             # select the same positions of this operand.
+                            return None
+                        if (
+                            out_pos in sliced_axes
+                            and not self.align_arrays
+                            and arg.chunks[pos] != self.chunks[out_pos]
+                        ):
+                            # Unaligned operands are paired by block position;
+                            # slicing each at the same element offsets changes
+                            # their block grids differently.
                             return None
                         arg_slices.append(slice_index[out_pos])
 
